@@ -399,7 +399,7 @@ class ConsumerWorld(ClientWorld):
         return ev
 
     def extra_events(self):
-        ev = []
+        ev = list(self.cluster_event_alts())
         if self.menu.get("crash") and self.crashes < self.menu.get("crash", 1) and self.start_results:
             ev.append(("crash", F))
         return ev
@@ -492,6 +492,10 @@ class ConsumerWorld(ClientWorld):
             return
         api = p["api_key"]
         body = p["body"]
+        if self.PROP == "C08":
+            self.c08_frame(req)
+        if self.PROP == "C04":
+            self.c04_frame(req)
         self.harvest()
         if api in (rk.FETCH, rk.LIST_OFFSETS, rk.OFFSET_FETCH, rk.OFFSET_COMMIT):
             self.wire.append((self.step, self.clock.seconds(), api, self.epoch))
@@ -573,6 +577,8 @@ class ConsumerWorld(ClientWorld):
         return None
 
     def on_event(self, label):
+        if self.PROP == "C08":
+            self.c08_event()
         self.harvest()
         j = self.clock.journal
         while self._clock_seen < len(j):
@@ -819,7 +825,7 @@ class ConsumerWorld(ClientWorld):
         return self.consec_failures
 
     def finish(self, horizon):
-        if self.PROP == "C02":
+        if self.PROP in ("C02", "C08", "C04"):
             self.finish_c02(horizon)
         if self.PROP == "C14":
             self.finish_c14(horizon)
@@ -845,7 +851,7 @@ class ConsumerWorld(ClientWorld):
                           "schedule tail %r)" % (leaves[self.expected_next][0], self.delivered[-6:], self.trace[-10:]))
         for rec in self.start_results:
             from twisted.python.failure import Failure
-            if self.PROP != "C02":
+            if self.PROP not in ("C02", "C08", "C04"):
                 break
             if rec[1] and isinstance(rec[2], Failure) and not self.cfg.get("expect_start_failure"):
                 self.viol("delivery", "start-deferred-failed:%s" % rec[2].type.__name__,
